@@ -297,6 +297,114 @@ class Executor(object):
                     r = self.guard("intersection", lambda: G.intersection(o, b))
                     if type(r) is not type(o) or self.guard("==", lambda: r == fresh) is not True:
                         raise Fail("intersection of a kept %s with its eps/1000 twin is not the coincident object" % kind, {"eps0": eps0, "eps": eps}, self.facts)
+        elif name == "degenerate":
+            # two defining points eps/1000 apart are the same point under the current eps: the zero-length object
+            # must be rejected under every configuration, not only under the default one
+            fi, bi, which, coord = step[1], step[2], step[3], step[4]
+            cat = catalogue("S", fi % len(FRAMES), bi % len(BASES))
+            p0 = tuple(float(c) for c in cat["pts"][0])
+            eps = G.get_eps()
+            q0 = tuple(c + (eps / 1000.0 if i == coord % 3 else 0.0) for i, c in enumerate(p0))
+            tiny = tuple(eps / 1000.0 if i == coord % 3 else 0.0 for i in range(3))
+            P = lambda q: G.Point(q[0], q[1], q[2])
+            V = lambda q: G.Vector(q[0], q[1], q[2])
+            forms = [
+                ("Line(P, P')", lambda: G.Line(P(p0), P(q0))), ("Line(P, tiny Vector)", lambda: G.Line(P(p0), V(tiny))),
+                ("Line(Vector, tiny Vector)", lambda: G.Line(V(p0), V(tiny))), ("Segment(P, P')", lambda: G.Segment(P(p0), P(q0))),
+                ("Segment(P, tiny Vector)", lambda: G.Segment(P(p0), V(tiny))), ("HalfLine(P, P')", lambda: G.HalfLine(P(p0), P(q0))),
+                ("HalfLine(P, tiny Vector)", lambda: G.HalfLine(P(p0), V(tiny))),
+            ]
+            nm, fn = forms[which % len(forms)]
+            self.facts = {"step": "degenerate", "form": nm, "eps": eps}
+            st_, v_ = B.call(fn)
+            if st_ != "raise":
+                raise Fail("%s with the two defining points eps/1000 apart is accepted under the current eps" % nm, {"eps": eps, "returned": repr(v_)[:120]}, self.facts)
+        elif name == "dupvertex":
+            # a polygon given with one vertex repeated eps/1000 away is the polygon without the repeat
+            fi, bi, which, coord = step[1], step[2], step[3], step[4]
+            cat = catalogue("G", fi % len(FRAMES), bi % len(BASES))
+            base = [tuple(float(c) for c in q) for q in cat["pts"]]
+            eps = G.get_eps()
+            e1 = FRAMES[fi % len(FRAMES)][0 if coord % 2 == 0 else 1]
+            ln = math.sqrt(sum(float(c) ** 2 for c in e1))
+            w = which % len(base)
+            dup = tuple(c + eps / 1000.0 * float(e) / ln for c, e in zip(base[w], e1))  # displaced inside the polygon's plane
+            self.facts = {"step": "dupvertex", "eps": eps}
+            plain = self.guard("constructor", lambda: construct("G", base))
+            pos = (w + 1 + coord) % (len(base) + 1)
+            pts = base[:pos] + [dup] + base[pos:]
+            withdup = self.guard("constructor (vertex repeated eps/1000 away)", lambda: construct("G", pts))
+            if len(withdup.points) != len(base):
+                raise Fail("a vertex repeated eps/1000 away is kept as a vertex of its own", {"eps": eps, "vertices": len(withdup.points)}, self.facts)
+            if self.guard("==", lambda: withdup == plain) is not True or self.guard("hash", lambda: hash(withdup)) != self.guard("hash", lambda: hash(plain)):
+                raise Fail("a polygon with a vertex repeated eps/1000 away differs from / hashes unlike the plain polygon", {"eps": eps}, self.facts)
+            self.guard("segments", lambda: list(withdup.segments()))
+        elif name == "bigpoly":
+            # the tolerance is absolute: it does not shrink for large objects
+            side, which, sgn = (12.0, 14.0, 10.0)[step[1] % 3], step[2] % 4, 1.0 if step[3] else -1.0
+            eps = G.get_eps()
+            h = side / 2
+            z = 0.375
+            base = [(-h, -h, z), (h, -h, z), (h, h, z), (-h, h, z)]
+            tw = [list(q) for q in base]
+            tw[which][0] += sgn * eps / 1000.0
+            tw[which][1] -= sgn * eps / 1000.0
+            a = self.guard("constructor", lambda: construct("G", base))
+            b = self.guard("constructor", lambda: construct("G", [tuple(q) for q in tw]))
+            self.facts = {"step": "bigpoly", "eps": eps, "side": side}
+            if self.guard("==", lambda: a == b) is not True or self.guard("hash", lambda: hash(a)) != self.guard("hash", lambda: hash(b)):
+                raise Fail("large polygons eps/1000 apart differ / hash differently", {"eps": eps}, self.facts)
+            for q in base:
+                if self.guard("in", lambda: G.Point(*q) in b) is not True:
+                    raise Fail("a large polygon does not contain a vertex of its eps/1000 twin", {"eps": eps, "vertex": q}, self.facts)
+            for q in tw:
+                if self.guard("in", lambda: G.Point(*q) in a) is not True:
+                    raise Fail("a large polygon does not contain a vertex of its eps/1000 twin", {"eps": eps, "vertex": tuple(q)}, self.facts)
+        elif name == "cycle":
+            # hash under the current configuration A, switch to B, edit the object in place (move / item assignment),
+            # switch back to A: the object must equal and hash like a fresh one at its new place ("restoring the
+            # previous eps restores the previous behaviour")
+            ti, fi, bi, kb, how = step[1], step[2], step[3], step[4], step[5]
+            t = ("P", "S", "H", "L", "PL", "G", "V")[ti % 7]
+            cat = catalogue(t, fi % len(FRAMES), bi % len(BASES))
+            kind = cat["kind"]
+            base = [tuple(float(c) for c in q) for q in cat["pts"]]
+            eps_a = G.get_eps()
+            o = self.guard("constructor", lambda: construct(kind, base))
+            self.guard("hash", lambda: hash(o))
+            self.guard("==", lambda: o == o)
+            self.facts = {"step": "cycle", "type": kind, "eps": eps_a, "other_sig": kb}
+            self.guard("set_sig_figures", lambda: G.set_sig_figures(kb))
+            self.guard("hash", lambda: hash(o))
+            v = ((1.0, 0.0, 0.5), (-0.25, 2.0, 0.0), (0.0, 0.0, -1.0))[how % 3]
+            if kind in ("P", "V") and how >= 3:
+                i = how % 3
+                o[i] = base[0][i] + v[i]
+                nbase = [tuple(c + (v[j] if j == i else 0.0) for j, c in enumerate(base[0]))]
+            elif kind == "V":
+                o[0], o[1], o[2] = (base[0][j] + v[j] for j in range(3))
+                nbase = [tuple(c + d for c, d in zip(base[0], v))]
+            else:
+                self.guard("move", lambda: o.move(G.Vector(*v)))
+                nbase = [tuple(c + d for c, d in zip(q, v)) for q in base] if kind in ("P", "S", "G") else [tuple(c + d for c, d in zip(base[0], v))] + list(base[1:])
+            self.guard("hash", lambda: hash(o))
+            self.guard("set_eps", lambda: G.set_eps(eps_a))
+            fresh = self.guard("constructor", lambda: construct(kind, nbase))
+            if self.guard("==", lambda: o == fresh) is not True or self.guard("==", lambda: fresh == o) is not True:
+                raise Fail("a %s hashed under one eps, edited under another and looked at under the first again is not equal to a fresh one" % kind, {"eps": eps_a, "other_sig": kb}, self.facts)
+            if self.guard("hash", lambda: hash(o)) != self.guard("hash", lambda: hash(fresh)):
+                raise Fail("a %s hashed under one eps, edited under another and looked at under the first again hashes unlike a fresh one" % kind, {"eps": eps_a, "other_sig": kb}, self.facts)
+        elif name == "movekept":
+            # a kept object is moved under whatever configuration is in force now; it is compared with fresh objects
+            # at its new place by later recheck steps, possibly under yet another configuration
+            if self.kept:
+                i = step[1] % len(self.kept)
+                kind, base, o, eps0, twins = self.kept[i]
+                if kind in ("P", "S", "H", "L", "PL", "G"):
+                    v = ((1.0, 0.0, 0.5), (-0.25, 2.0, 0.0), (0.0, 0.0, -1.0))[step[2] % 3]
+                    self.guard("move", lambda: o.move(G.Vector(*v)))
+                    nbase = [tuple(c + d for c, d in zip(q, v)) for q in base] if kind in ("P", "S", "G") else [tuple(c + d for c, d in zip(base[0], v))] + list(base[1:])
+                    self.kept[i] = (kind, nbase, o, eps0, [])
         elif name == "reprobe":
             if self.recorded:
                 keys = sorted(self.recorded)
@@ -402,7 +510,7 @@ def account(case, ctx):
         elif name == "restore":
             if stack:
                 cur = stack.pop()
-        elif name in ("probe", "reprobe", "recheck"):
+        elif name in ("probe", "reprobe", "recheck", "degenerate", "dupvertex", "bigpoly", "cycle"):
             npr += 1
             if cur != 10:
                 nondefault = True
@@ -481,6 +589,11 @@ def machine(ctx):
         "probe3": pargs,
         "reprobe": (st.integers(0, 20),),
         "keep": (st.integers(0, len(TYPES) - 1), st.integers(0, len(FRAMES) - 1), st.integers(0, len(BASES) - 1)),
+        "degenerate": (st.integers(0, len(FRAMES) - 1), st.integers(0, len(BASES) - 1), st.integers(0, 6), st.integers(0, 2)),
+        "dupvertex": (st.integers(0, len(FRAMES) - 1), st.integers(0, len(BASES) - 1), st.integers(0, 3), st.integers(0, 4)),
+        "bigpoly": (st.integers(0, 2), st.integers(0, 3), st.booleans()),
+        "movekept": (st.integers(0, 5), st.integers(0, 2)),
+        "cycle": (st.integers(0, 6), st.integers(0, len(FRAMES) - 1), st.integers(0, len(BASES) - 1), st.sampled_from(KS), st.integers(0, 5)),
         "recheck": (st.integers(0, 5), st.integers(0, 7), st.integers(0, 2)),
         "recheck2": (st.integers(0, 5), st.integers(0, 7), st.integers(0, 2)),
     }
